@@ -100,3 +100,9 @@ CASES += [
     m("time-dependent combined tensor calls the rate routine without the integral (the repaired defect)", "C01-D", R + "tdredfieldfoerster.py",
       "            KF = td_foerster_rates(Na, Nt, hh, tt, gvals, lamb, _td_fintegral)", "            KF = td_foerster_rates(Na, Nt, hh, tt, gvals, lamb)"),
 ]
+
+CASES += [
+    m("Hermitian conjugates built for all bath components but the last", "C01-A", R + "redfieldtensor.py",
+      "        for ms in range(Nb):\n            Ld[ms, :, :] += numpy.conj(numpy.transpose(Lm[ms,:,:]))",
+      "        for ms in range(Nb-1):\n            Ld[ms, :, :] += numpy.conj(numpy.transpose(Lm[ms,:,:]))"),
+]
